@@ -34,6 +34,10 @@ def rand_path_shape(rng):
         return rng.choice(['b/inner.rs', 'a/inner.py', 'b/b/b.c', 'a/b/c.js', 'i/w.go']), 'prefix-like'
     if r < 0.8:
         return '/'.join(['deep%d' % i for i in range(12)]) + '/very_long_file_name_' + 'x' * 40 + '.rs', 'long'
+    if r < 0.86:
+        # as git writes a path with non-ASCII bytes, a tab or a quote under core.quotePath: quoted, with C escapes.
+        # delta removes the quotes and shows the escapes as they are
+        return rng.choice(['\\303\\274n\\303\\257/c\\303\\266d\\303\\251.rs', 'tab\\there.txt', 'q\\"uote.py', 'back\\\\slash.c']), 'git-quoted'
     if r < 0.9:
         return rng.choice(['Makefile', 'LICENSE', '.gitignore', '.hidden/x', 'no_ext']), 'no-ext'
     return rng.choice(['weird-@@-name.rs', 'plus+minus-.txt', 'colon:name.c', "quote'name.py"]), 'punct'
@@ -47,11 +51,15 @@ def make_section(rng, kind, idx, pa, pb):
     s = Sec()
     s.kind = kind
     s.old, oc = rand_path_shape(rng)
+    while oc == 'git-quoted' and kind in ('binary_noindex', 'binary_cc', 'binary_bare', 'submodule_log'):
+        s.old, oc = rand_path_shape(rng)
     s.old = 's%d/' % idx + s.old
     s.new = s.old
     s.classes = {oc}
     if kind in ('renamed', 'renamed_changed', 'copied', 'binary_noindex'):
         s.new, nc = rand_path_shape(rng)
+        while nc == 'git-quoted' and kind == 'binary_noindex':
+            s.new, nc = rand_path_shape(rng)
         s.new = 't%d/' % idx + s.new
         s.classes.add(nc)
     s.old_mode, s.new_mode = '100644', '100644'
@@ -76,6 +84,13 @@ def tab_if_space(p):
     return p + ('\t' if ' ' in p else '')
 
 
+def gq(prefix, p, tab=True):
+    """prefix + path as git writes it on diff / --- / +++ / rename lines (quoted when it holds escapes)."""
+    if '\\' in p:
+        return '"%s%s"' % (prefix, p)
+    return prefix + (tab_if_space(p) if tab else p)
+
+
 def section_lines(s, fmt):
     a, b, pa, pb = s.old, s.new, s.pa, s.pb
     k = s.kind
@@ -86,37 +101,37 @@ def section_lines(s, fmt):
     elif k == 'submodule_log':
         return ['Submodule %s 1234567..89abcde:' % a, '  > a commit message']
     else:
-        L = ['diff --git %s%s %s%s' % (pa, a, pb, b)]
+        L = ['diff --git %s %s' % (gq(pa, a, False), gq(pb, b, False))]
         if k == 'binary_cc':
             L = ['diff --%s %s' % (s.cc_word, b), 'index 1111111,2222222..3333333', 'Binary files differ']
         idx = 'index 1111111..2222222'
         if k == 'modified':
-            L += [idx + ' 100644', '--- %s%s' % (pa, tab_if_space(a)), '+++ %s%s' % (pb, tab_if_space(b))]
+            L += [idx + ' 100644', '--- ' + gq(pa, a), '+++ ' + gq(pb, b)]
         elif k == 'added':
-            L += ['new file mode 100644', 'index 0000000..2222222', '--- /dev/null', '+++ %s%s' % (pb, tab_if_space(b))]
+            L += ['new file mode 100644', 'index 0000000..2222222', '--- /dev/null', '+++ ' + gq(pb, b)]
         elif k == 'empty_added':
             L += ['new file mode 100644', 'index 0000000..e69de29']
         elif k == 'deleted':
-            L += ['deleted file mode 100644', 'index 1111111..0000000', '--- %s%s' % (pa, tab_if_space(a)), '+++ /dev/null']
+            L += ['deleted file mode 100644', 'index 1111111..0000000', '--- ' + gq(pa, a), '+++ /dev/null']
         elif k == 'renamed':
-            L += ['similarity index 100%', 'rename from %s' % a, 'rename to %s' % b]
+            L += ['similarity index 100%', 'rename from ' + gq('', a, False), 'rename to ' + gq('', b, False)]
         elif k == 'renamed_changed':
-            L += ['similarity index 90%', 'rename from %s' % a, 'rename to %s' % b, idx + ' 100644',
-                  '--- %s%s' % (pa, tab_if_space(a)), '+++ %s%s' % (pb, tab_if_space(b))]
+            L += ['similarity index 90%', 'rename from ' + gq('', a, False), 'rename to ' + gq('', b, False), idx + ' 100644',
+                  '--- ' + gq(pa, a), '+++ ' + gq(pb, b)]
         elif k == 'copied':
-            L += ['similarity index 100%', 'copy from %s' % a, 'copy to %s' % b]
+            L += ['similarity index 100%', 'copy from ' + gq('', a, False), 'copy to ' + gq('', b, False)]
         elif k == 'mode_only':
             L += ['old mode %s' % s.old_mode, 'new mode %s' % s.new_mode]
         elif k == 'mode_changed':
-            L += ['old mode %s' % s.old_mode, 'new mode %s' % s.new_mode, idx, '--- %s%s' % (pa, tab_if_space(a)),
-                  '+++ %s%s' % (pb, tab_if_space(b))]
+            L += ['old mode %s' % s.old_mode, 'new mode %s' % s.new_mode, idx, '--- ' + gq(pa, a),
+                  '+++ ' + gq(pb, b)]
         elif k == 'binary':
-            L += [idx + ' 100644', 'Binary files %s%s and %s%s differ' % (pa, a, pb, b)]
+            L += [idx + ' 100644', 'Binary files %s and %s differ' % (gq(pa, a, False), gq(pb, b, False))]
         elif k == 'binary_noindex':
             # git diff --no-index dirA dirB: two different paths and no ---/+++ lines
-            L += [idx + ' 100644', 'Binary files %s%s and %s%s differ' % (pa, a, pb, b)]
+            L += [idx + ' 100644', 'Binary files %s and %s differ' % (gq(pa, a, False), gq(pb, b, False))]
         elif k == 'binary_added':
-            L += ['new file mode 100644', 'index 0000000..2222222', 'Binary files /dev/null and %s%s differ' % (pb, b)]
+            L += ['new file mode 100644', 'index 0000000..2222222', 'Binary files /dev/null and %s differ' % gq(pb, b, False)]
     for h in s.hunks:
         L.append(h.header())
         L += [kk + t for kk, t in h.lines]
@@ -202,7 +217,17 @@ def run_item(item):
         opts['--line-buffer-size'] = rng.choice([0, 1, 32])
     opts['--syntax-theme'] = rng.choice(['none', 'GitHub', 'Dracula'])
     lines = []
+    log_mode = fmt == 'git' and rng.random() < 0.2
+    if log_mode:
+        cls.append('log-p')
     for s in secs:
+        if log_mode and rng.random() < 0.7:
+            # git log -p: a commit header (and sometimes a diff-stat block) between file sections
+            from .. import corpus
+            head, _h = corpus.commit_header(rng)
+            lines += head
+            if rng.random() < 0.4:
+                lines += corpus.diffstat_lines(rng, ['x/%s' % s.new.replace('\\', '')])
         lines += section_lines(s, fmt)
     res = runner.run_delta(gen.to_args(opts), ('\n'.join(lines) + '\n').encode())
     c = crash_outcome(res, ID)
@@ -220,8 +245,10 @@ def run_item(item):
         return violated('c14:' + key, what, exp, obs, run=res, counters=counters, sets=sets)
     pos = 0
 
-    def skip_blank(p):
-        while p < len(infos) and infos[p].kind == 'blank':
+    def skip_blank(p, stop_text=None):
+        # (in log mode also the commit header / message / diff-stat rows, which carry no reserved colour)
+        while p < len(infos) and (infos[p].kind == 'blank' or (log_mode and infos[p].kind == 'text' and
+                                                               (stop_text is None or ' '.join(infos[p].text.split()) != ' '.join(stop_text.split())))):
             p += 1
         return p
 
@@ -229,7 +256,7 @@ def run_item(item):
         return ' '.join(t.split())
     for si, s in enumerate(secs):
         exp = expected_header(s, fmt, labels, arrow)
-        pos = skip_blank(pos)
+        pos = skip_blank(pos, exp if s.kind in ('binary_noindex', 'binary_bare', 'submodule_log') else None)
         if pos >= len(infos):
             return bad('header-missing:' + s.kind, 'file header of section %d (%s) is missing' % (si, s.kind), exp, 'end of output')
         info = infos[pos]
